@@ -1167,7 +1167,20 @@ func genCond(r *kit.Rng, palette []lval) string {
 	fields := "-"
 	switch r.Pick(80, 12, 8) {
 	case 1:
-		fields = kit.Enc(field) + "," + kit.Enc(fieldPool[r.Intn(len(fieldPool))])
+		// 2-3 Fields, plain and root.-prefixed names in any order (the first one present wins;
+		// whether only the root was looked at decides if the remaining spans are still tried)
+		fs := []string{kit.Enc(field)}
+		for k := 1 + r.Intn(2); k > 0; k-- {
+			f := fieldPool[r.Intn(len(fieldPool))]
+			switch r.Pick(50, 40, 10) {
+			case 1:
+				f = config.RootPrefix + f
+			case 2:
+				f = "zz" // never present
+			}
+			fs = append(fs, kit.Enc(f))
+		}
+		fields = strings.Join(fs, ",")
 		field = ""
 	case 2:
 		field = string(config.NUM_DESCENDANTS)
@@ -1233,9 +1246,47 @@ func (comp) Gen(r *kit.Rng, maxLen int, tier string) kit.Case {
 		}
 	}
 	ops = append(ops, fmt.Sprintf("key fields=%s tl=%s rate=%d", encList(kf), b01(r.Chance(30)), []int{1, 3, 7}[r.Intn(3)]))
+	// directed scenario (30% of the cases): rule r0 has one condition over Fields in which a plain
+	// field p and a root.-prefixed field q both occur; in the first trace the root span carries a
+	// non-matching q, some spans lack p (they fall back to the root's q) and exactly one span has a
+	// matching p.  Whether the rule matches must not depend on where that span is in the arrival order.
+	directed := false
+	var dp, dq string
+	var dX, dY lval
+	if r.Chance(30) {
+		dp, dq = fieldPool[r.Intn(len(fieldPool))], fieldPool[r.Intn(len(fieldPool))]
+		dX = palette[r.Intn(len(palette))]
+		for _, y := range palette {
+			if y.condTok() != dX.condTok() && !(y.k == 'q' && dX.k == 'q' && y.r.Cmp(dX.r) == 0) {
+				dY, directed = y, true
+				break
+			}
+		}
+	}
 	nr := 1 + r.Intn(3)
 	for i := 0; i < nr; i++ {
 		scope := []string{"trace", "", "span"}[r.Pick(40, 15, 45)]
+		if directed && i == 0 {
+			var fs []string
+			switch r.Pick(50, 15, 13, 12, 10) {
+			case 0:
+				fs = []string{dp, config.RootPrefix + dq}
+			case 1:
+				fs = []string{config.RootPrefix + dq, dp}
+			case 2:
+				fs = []string{"zz", dp, config.RootPrefix + dq}
+			case 3:
+				fs = []string{dp, "zz", config.RootPrefix + dq}
+			default:
+				fs = []string{dp, config.RootPrefix + dq, "zz"}
+			}
+			ops = append(ops, fmt.Sprintf("rule name=r0 scope=%s rate=%d drop=%s down=none", kit.Enc(scope), []int{1, 2}[r.Intn(2)], b01(r.Chance(50))))
+			ops = append(ops, fmt.Sprintf("cond field=%% fields=%s op=%s dt=%% val=%s", encList(fs), kit.Enc(config.EQ), dX.condTok()))
+			if scope == "span" && r.Chance(40) {
+				ops = append(ops, fmt.Sprintf("cond field=%s fields=- op=%s dt=%% val=n", kit.Enc(dp), kit.Enc(config.Exists)))
+			}
+			continue
+		}
 		rate := []int{1, 2, 10, 0}[r.Pick(40, 25, 25, 10)]
 		down := "none"
 		switch r.Pick(76, 10, 14) {
@@ -1261,6 +1312,12 @@ func (comp) Gen(r *kit.Rng, maxLen int, tier string) kit.Case {
 		if r.Chance(80) {
 			root = r.Intn(n)
 		}
+		firstDirected := directed
+		directed = false // the first trace only
+		if firstDirected {
+			n = 3 + r.Intn(2)
+			root = r.Intn(n)
+		}
 		tr := make([]lspan, n)
 		for i := range tr {
 			tr[i].root = i == root
@@ -1271,6 +1328,33 @@ func (comp) Gen(r *kit.Rng, maxLen int, tier string) kit.Case {
 				}
 			}
 		}
+		if firstDirected {
+			set := func(sp *lspan, f string, v *lval) { // v == nil: the span lacks f
+				for j, k := range sp.keys {
+					if k == f {
+						sp.keys = append(sp.keys[:j], sp.keys[j+1:]...)
+						sp.vals = append(sp.vals[:j], sp.vals[j+1:]...)
+						break
+					}
+				}
+				if v != nil {
+					sp.keys = append(sp.keys, f)
+					sp.vals = append(sp.vals, *v)
+				}
+			}
+			match := (root + 1 + r.Intn(n-1)) % n // a non-root span
+			for i := range tr {
+				switch {
+				case i == match:
+					set(&tr[i], dp, &dX)
+				case i == root:
+					set(&tr[i], dp, nil)
+					set(&tr[i], dq, &dY) // (if p = q the root's own p is the non-matching value)
+				default:
+					set(&tr[i], dp, nil)
+				}
+			}
+		}
 		seed := r.Intn(1000000)
 		tid := r.Intn(1000000)
 		nv := 3 + r.Intn(5)
@@ -1278,6 +1362,9 @@ func (comp) Gen(r *kit.Rng, maxLen int, tier string) kit.Case {
 			prof := "ref"
 			if v > 0 {
 				prof = profiles[r.Pick(0, 14, 30, 12, 10, 8, 10, 16)]
+				if firstDirected && r.Chance(50) {
+					prof = "perm"
+				}
 			}
 			order := make([]int, n)
 			for i := range order {
